@@ -289,6 +289,9 @@ class C10(common.Prop):
                     "op": self.opkey(case, step), "kind": "raises"}
         if err is None and len(regs) != len(env):
             return {"what": "number of results differs from the reference", "step": None, "op": "?", "kind": "count"}
+        if out.get("stat32") is not None:
+            return {"what": "float32 variance / std of values around 4096 (axis %s) differ from the two-pass binary64 value of the valid "
+                            "elements by more than 0.2%%" % (out["stat32"],), "step": None, "op": "stat32", "kind": "value"}
         if out.get("inplace") is not None:
             return {"what": "the in-place methods pow_(2), tensor.add_(1), fix_nan() on input %s do not leave v*v + 1 with NaN -> 0 (infinities "
                             "kept) under an unchanged mask" % (out["inplace"],), "step": None, "op": "inplace", "kind": "inplace"}
